@@ -150,6 +150,8 @@ def runCase (s : St) : String :=
     let fuelS := s.doc.size + 2
     let fit := fitRunB docL fuelS given ((given.head?.map (·.start_byte)).getD 0)
     let rc := rangedAgrees s.doc given
+    -- do the two lexers see the same characters (model, tied to the port per case by `rc`)?
+    let streamEq := decide ((rangedChars docL fuelS given ((given.head?.map (·.start_byte)).getD 0)).map (fun x => (x.2.1, x.2.2)) = refCharsS fuelS s.concat)
     let sc := !fit || decide ((rangedChars docL fuelS given ((given.head?.map (·.start_byte)).getD 0)).map (fun x => (x.2.1, x.2.2)) = refCharsS fuelS s.concat)
     let myEff := effectiveText given s.doc
     let effOk := !s.hasE || decide (myEff = s.eff)
@@ -169,8 +171,10 @@ def runCase (s : St) : String :=
         | none => if st.quirks > 0 then ("ok", s!"FAIL {st.quirkMsg}") else ("ok", "ok")
         | some m => if m.startsWith "shape" then (s!"FAIL {m}", "-") else ("ok", s!"FAIL {m}")
       -- classification of a failure (most specific first):
-      -- * character splitting: some effective range boundary is not a character boundary AND the ranged
-      --   tree has the shape of the parse of the text the lexer really consumed (E), which the model reproduces;
+      -- * character splitting: some effective range boundary is not a character boundary AND (the ranged tree has
+      --   the shape of the parse of the text the lexer really consumed (E), which the model reproduces, OR the model —
+      --   tied to the port on this very case — shows that the two lexers see different character streams: a range
+      --   may also END a character early, or the concatenation may JOIN bytes of two ranges into one character);
       -- * empty range: the only deviations are boundaries sitting on an empty given range between the two images of a seam;
       -- * error recovery: one of the two trees contains ERROR/MISSING nodes (recovery costs count excluded bytes);
       -- a scanner that reads the column legitimately answers differently on the concatenation (columns differ):
@@ -183,7 +187,7 @@ def runCase (s : St) : String :=
       let (shape, pos) := if col && st.fail.isSome then ("ok", "ok") else (shape, pos)
       let cause := if col && st.fail.isSome then "-"
         else if st.fail.isNone && st.quirks == 0 then "-"
-        else if !onB && s.hasE && effOk && stE.isNone then "char-splitting-range-boundary"
+        else if !onB && ((s.hasE && effOk && stE.isNone) || (rc && !streamEq)) then "char-splitting-range-boundary"
         else if st.fail.isNone && errBoth then "error-recovery"   -- erroneous on both sides: ERROR/MISSING nodes sit at the left image of a seam
         else if st.fail.isNone then
           -- a boundary on a range with start = end (repaired by fixes/C13-empty-range-boundary.diff), or only on
